@@ -140,6 +140,38 @@ pub fn get_input_list(
     }
 }
 
+/// Obtain a list of sample names from command line input (`ska delete`).
+///
+/// If `file_list` is provided, read one sample name per line: the first
+/// whitespace-separated field, so a file list as given to `ska build` can
+/// also be used. Otherwise names are taken from `names` as in [`get_input_list`].
+pub fn get_name_list(file_list: &Option<String>, names: &Option<Vec<String>>) -> Vec<String> {
+    match file_list {
+        Some(files) => {
+            let f = File::open(files).expect("Unable to open file_list");
+            let f = BufReader::new(f);
+            let mut name_list: Vec<String> = Vec::new();
+            for line in f.lines() {
+                let line = line.expect("Unable to read line in file_list");
+                match name_from_line(&line) {
+                    Some(name) => name_list.push(name.to_string()),
+                    None => panic!("Unable to parse line in file_list"),
+                }
+            }
+            name_list
+        }
+        None => get_input_list(&None, names)
+            .into_iter()
+            .map(|input| input.0)
+            .collect(),
+    }
+}
+
+/// The sample name on a line of a name list: its first field
+fn name_from_line(line: &str) -> Option<&str> {
+    line.split_whitespace().next()
+}
+
 /// Checks if any input files are fastq
 pub fn any_fastq(files: &[InputFastx]) -> bool {
     files.iter().any(|file| file.2.is_some())
